@@ -33,15 +33,27 @@ def kind_of(obj):
         return "dict"
     if t in LISTLIKE:
         return "seq" if t in (list, tuple) else "set"
-    if isinstance(obj, SCALARS) or isinstance(obj, type) or t.__name__ in ("module", "traceback"):
+    # type-based tests only: isinstance() may consult obj.__class__, which a host object can make raise
+    if issubclass(t, SCALARS) or issubclass(t, type) or t.__name__ in ("module", "traceback"):
         return "leaf"
     n = t.__name__
     if "iterator" in n or "generator" in n or n in ("range_iterator", "enumerate", "zip", "map", "filter",
                                                     "coroutine", "async_generator"):
         return "iter"
-    if isinstance(obj, BaseException):
+    if issubclass(t, BaseException):
         return "exc"
     return "obj"
+
+
+def esc(s):
+    """Wire form of text that is not valid UTF-8 (lone surrogates): backslash-escaped."""
+    try:
+        s.encode("utf-8")
+        return s
+    except UnicodeEncodeError:
+        return s.encode("utf-8", "backslashreplace").decode("utf-8")
+    except AttributeError:
+        return s
 
 
 def safe_str(o):
@@ -85,6 +97,7 @@ class RefGraph:
                 for k in list(o.keys()):
                     if k in o:
                         names = {x for x in (safe_str(k), safe_repr(k)) if x is not None}
+                        names |= {esc(x) for x in names}
                         out.append((names, None, self.node(o[k])))
             elif n.kind in ("seq", "set"):
                 for i, v in enumerate(tuple(o)):
@@ -101,7 +114,8 @@ class RefGraph:
                 if d is not None:
                     for k in list(d.keys()):
                         if isinstance(k, str):
-                            out.append(({_demangle(type(o), k)}, k if _demangle(type(o), k) != k else None,
+                            # the statement does not fix the naming of name-mangled attributes: accept both forms
+                            out.append(({_demangle(type(o), k), k, esc(k)}, k if _demangle(type(o), k) != k else None,
                                         self.node(d[k])))
         except BaseException:  # noqa - host object misbehaves: no children demanded
             out = []
